@@ -127,7 +127,8 @@ pub struct P19 {
 }
 impl P19 {
     pub fn new(tier: Tier) -> P19 {
-        let kmax = tier.pick(3, 4);
+        let kmax = tier.pick(3, 5);
+        let full_upto = tier.pick(2, 4);
         let mut cases = vec![];
         let mut tuples: Vec<Vec<usize>> = vec![vec![]];
         let mut cur: Vec<Vec<usize>> = vec![vec![]];
@@ -147,7 +148,7 @@ impl P19 {
             for ns in [false, true] {
                 for sl in 0..3u8 {
                     // the full magic x snaplen product for short files, one combination per longer tuple
-                    if t.len() <= 2 || (ns as u8 + sl) as usize % 3 == t.iter().sum::<usize>() % 3 {
+                    if t.len() <= full_upto || (ns as u8 + sl) as usize % 3 == t.iter().sum::<usize>() % 3 {
                         cases.push(Case::File(t.clone(), ns, sl));
                     }
                 }
@@ -408,7 +409,7 @@ impl Property for P19 {
         }
     }
     fn rule(&self) -> String {
-        format!("files: every tuple of <= 3 (thorough 4) record sizes from {:?} (around BufReader's 8 KiB buffer) x microsecond/nanosecond magic x snaplen (max record size, 65535, 262144), distinct timestamps and wire lengths per record; per file a breadth-first search over call sequences of pcap_read_next, pcap_read_all(f), pcap_read_all(f, 0|1|2|k+1) against a Vec<Record> + cursor model (canonical state = cursor; merged states' futures cross-checked), each transition replayed on a freshly opened handle, every returned packet compared field by field (sec, usec, caplen, wirelen, payload); then every packet written with pcap_write to a new file and read back; a three-record file cut at every byte offset and 40 single-field corruptions (every magic byte, snaplen below a record, invalid and oversized caplen values): exactly the records before the damage, then null or an error object, never a crash", SIZES)
+        format!("files: every tuple of <= 3 (thorough 5) record sizes from {:?} (around BufReader's 8 KiB buffer) x microsecond/nanosecond magic x snaplen (max record size, 65535, 262144), distinct timestamps and wire lengths per record; per file a breadth-first search over call sequences of pcap_read_next, pcap_read_all(f), pcap_read_all(f, 0|1|2|k+1) against a Vec<Record> + cursor model (canonical state = cursor; merged states' futures cross-checked), each transition replayed on a freshly opened handle, every returned packet compared field by field (sec, usec, caplen, wirelen, payload); then every packet written with pcap_write to a new file and read back; a three-record file cut at every byte offset and 40 single-field corruptions (every magic byte, snaplen below a record, invalid and oversized caplen values): exactly the records before the damage, then null or an error object, never a crash", SIZES)
     }
     fn bounds(&self) -> Value {
         json!({"cases": self.cases.len()})
